@@ -122,11 +122,28 @@ func reconnectScenario(rng *rand.Rand) {
 		if !waitDelivered(1500 * time.Millisecond) {
 			status = "undelivered-before-reconnect"
 		}
-		// cut the connection to the leader; a record is appended before the fetcher re-initialises
-		tb.Cut(1, 1, 0)
-		produce(1)
-		if !waitDelivered(800*time.Millisecond) && status == "ok" {
-			status = "undelivered-after-reconnect"
+		// lose the connection to the leader; a record is appended before the fetcher re-initialises.  How it is lost
+		// varies: dropped before the fetch response / in the middle of it / the broker goes silent (the read times out) /
+		// twice in a row with records in between.
+		rounds, variant := 1, rng.Intn(4)
+		if variant == 2 {
+			rounds = 2
+		}
+		for k := 0; k < rounds; k++ {
+			switch variant {
+			case 1:
+				tb.Cut(1, 1, 5+rng.Intn(20))
+			case 3:
+				tb.SetStall(true)
+				tb.Cut(1, 1, 0)
+			default:
+				tb.Cut(1, 1, 0)
+			}
+			produce(1 + rng.Intn(2))
+			if !waitDelivered(1500*time.Millisecond) && status == "ok" {
+				status = "undelivered-after-reconnect"
+			}
+			tb.SetStall(false)
 		}
 		atomic.StoreInt32(&wantCommit, 1)
 		produce(1 + rng.Intn(2))
